@@ -220,6 +220,7 @@ func (r *Raft) onTakeSnapshot(t takeSnapshot) {
 	}
 	r.snapTakenCh = make(chan snapTaken, 1)
 	go func(index uint64, config Config) { // tracked by r.snapTakenCh
+		verifPoint("snapG.start", r, index)
 		meta, err := doTakeSnapshot(r.fsm, index, config)
 		if trace {
 			println(r, "doTakeSnapshot err:", err)
@@ -235,6 +236,7 @@ func (r *Raft) onTakeSnapshot(t takeSnapshot) {
 func doTakeSnapshot(fsm *stateMachine, index uint64, config Config) (snapshotMeta, error) {
 	// get fsm state
 	req := fsmSnapReq{task: newTask(), index: index}
+	verifPoint("snapG.ask", fsm, index)
 	fsm.ch <- req
 	<-req.Done()
 	if req.Err() != nil {
@@ -249,6 +251,7 @@ func doTakeSnapshot(fsm *stateMachine, index uint64, config Config) (snapshotMet
 		return snapshotMeta{}, opError(err, "snapshots.new")
 	}
 	bufw := bufio.NewWriter(sink.file)
+	verifPoint("snapG.store", fsm, resp.index)
 	err = resp.state.Persist(bufw)
 	if err == nil {
 		err = bufw.Flush()
